@@ -7,8 +7,12 @@ import RTV.Props.C08
 
 `RTV.DefRange.rangeDefiniteOK` is the predicate the C11 check evaluates (through the driver) on every `daterange` value
 the real date-time model emits; `periodOf` reads the period off the TIMEX (`YYYY`, `YYYY-MM`, `YYYY-Www`, `YYYY-Www-WE`).
-The theorems here show that the predicate is *satisfied by the model of the period parser* for every reference — so the
-oracle demands nothing the (modelled) code does not deliver — and pin `periodOf` to the calendar functions.
+What is PROVED here: for the WEEK branch only (`week_period_range_definite`: this / next / last week with any shift, every
+reference whose ISO year is below 9999) the predicate is satisfied by the model of the period parser — there the oracle
+demands nothing the modelled code does not deliver — and `periodOf` is pinned to the calendar functions for week TIMEXes
+(`periodOf_week`).  For `YYYY-MM`, `YYYY` and `YYYY-Www-WE` TIMEXes `periodOf` is exercised by closed EXAMPLES only
+(`periodOf_month_year_examples`, `strict_examples_imply`): no theorem connects the month / year / weekend branches of the
+period parser with the predicate; for them the predicate evaluated on the real output is the only check.
 -/
 namespace RTV.DefRange
 open RTV.Cal RTV.WF RTV.DateUtils RTV.Py
